@@ -1379,8 +1379,10 @@ impl Relation {
                 }
                 VersionConstraint::GreaterThan => {
                     builder.token(R_ANGLE.into(), ">");
+                    builder.token(R_ANGLE.into(), ">");
                 }
                 VersionConstraint::LessThan => {
+                    builder.token(L_ANGLE.into(), "<");
                     builder.token(L_ANGLE.into(), "<");
                 }
             }
@@ -1398,7 +1400,20 @@ impl Relation {
             } else {
                 let name_node = self.0.children_with_tokens().find(|n| n.kind() == IDENT);
                 let idx = if let Some(name_node) = name_node {
-                    name_node.index() + 1
+                    // skip the architecture qualifier (":any") behind the name: an ARCHQUAL node when parsed,
+                    // COLON and IDENT tokens when built by wrap_and_sort
+                    let mut idx = name_node.index() + 1;
+                    let mut next = name_node.next_sibling_or_token();
+                    if next.as_ref().map(|n| n.kind()) == Some(ARCHQUAL) {
+                        idx += 1;
+                    } else if next.as_ref().map(|n| n.kind()) == Some(COLON) {
+                        idx += 1;
+                        next = next.and_then(|n| n.next_sibling_or_token());
+                        if next.as_ref().map(|n| n.kind()) == Some(IDENT) {
+                            idx += 1;
+                        }
+                    }
+                    idx
                 } else {
                     0
                 };
